@@ -35,6 +35,16 @@ theorem step_lpCw20 (base : Path → Res Unit) (s s' : St) (op : Op) (h : step b
     split at h
     · cases h; rfl
     · cases h
+  | setPartial o a b c =>
+    simp only [step] at h
+    split at h
+    · cases h; rfl
+    · cases h
+  | touch o =>
+    simp only [step] at h
+    split at h
+    · cases h; rfl
+    · cases h
   | call p =>
     simp only [step] at h
     split at h
